@@ -166,6 +166,17 @@ CLAIMED = {
             '§6 C12',
             'partial: that linking reads only imported modules and that defaults do not leak is decided by the comparison, not derived',
             'Coq proof (driver model + use-line model over the C16 name conversions) + differential compilation of module subsets'),
+    'C19': ('proof',
+            'Theorems: for any type_annotations (derives listed once, twice, not at all, any order) the derive list starts with the '
+            'derives rasn needs (re-read from REQUIRED_DERIVES on every run), contains every requested derive and nothing twice; a From '
+            'impl is generated exactly for the CHOICE alternatives whose payload type is unique in their CHOICE. Search for the claim '
+            'about the whole generator: module sets compiled under the default configuration and under all 2^4 boolean combinations x '
+            '{no, one, several} custom imports x 5 annotation sets; each module block split into use lines, From impls, statics and the '
+            'rest -- the rest must be identical, use lines and statics differ only as documented, derive lists and From impls are '
+            'compared with the model inside Coq',
+            '§6 C19',
+            'partial: "everything else is identical" is a differential observation over generated inputs; open types are not generated',
+            'Coq proof (derive merging, From-impl filter) + regenerated constants + differential compilation across configurations'),
     'C08': ('proof',
             'partial. Proved for every input: the nestable-comment scanner never slices out of range; the error-excerpt arithmetic '
             '(until_next_unindented, contextualize) stays in range and on character boundaries for every report the position '
